@@ -179,6 +179,7 @@ class TermBuilder:
         self._memo = {}
         self._stack = set()
         self.allowed = None      # when set: only definitions located in these blocks count as reaching (conditional evaluation)
+        self.dead_edges = None   # when set: CFG edges known not to be taken under the valuation (reaching definitions do not flow along them)
         self.callees = CALLEES   # key -> Callee (shared registry)
 
     # ------------------------------------------------------------ definitions
@@ -293,8 +294,10 @@ class TermBuilder:
 
     def _out_sets(self, l):
         """Reaching definitions of local l at block entries: dict block -> frozenset of def indexes (or -1 = entry)."""
-        if l in self._in:
-            return self._in[l]
+        ck = l if not self.dead_edges else (l, self.dead_edges)
+        if ck in self._in:
+            return self._in[ck]
+        dead = self.dead_edges or ()
         body = self.body
         ds = self.defs(l)
         last_in_block = {}
@@ -315,10 +318,12 @@ class TermBuilder:
             for b in blocks:
                 o = out(b)
                 for s in body.succ(b):
+                    if dead and (b, s) in dead:
+                        continue
                     if s in IN and not o <= IN[s]:
                         IN[s] |= o
                         changed = True
-        self._in[l] = IN
+        self._in[ck] = IN
         return IN
 
     def reaching(self, l, block, idx):
@@ -342,7 +347,7 @@ class TermBuilder:
             rs2 = [r for r in rs if r == -1 or ds[r][0] in self.allowed]
             if rs2:
                 rs = rs2
-        mk = (l, tuple(rs), self.allowed)
+        mk = (l, tuple(rs), self.allowed, self.dead_edges)
         if mk in self._memo:
             return self._memo[mk]
         if mk in self._stack:
